@@ -132,6 +132,15 @@ PROPS = {
                    '(tree induced by explicit tags, right-to-left matching over the ancestor chain) on the model\'s tag stream and comparing with the handler invocations of the real rewriter, '
                    'for selectors from the full grammar, plus the correspondence run of the VM model. Known finding NotCompoundArg.',
         level_note='Trusted as C01 plus: the pairing of selector strings with their structure in tools/gen.py (cssparser / selectors crate parsing is not modelled), spec/CssSem.v as the meaning of "CSS semantics".'),
+    'C05': dict(coq=['props/C05.vo'], families=[('c05', 2500, 60000), ('l2mixed', 600, 12000), ('grp-l2mixed', 300, 6000)], projections=['handlers'], oracle=oracle_c05, prepare=prepare_c05,
+        technique='Coq proof: invariant over every reachable state of the level-2 model (generic success-path lifting OkWrite + handler-count invariant, proofs/Scope.v); '
+                  'extracted reference scope model (spec/CssSem.v scope_events) as oracle for the implementation\'s handler invocation log; extraction-based correspondence run',
+        level_text='Theorems C05_handler_counts_track_open_matched_elements and C05_scoped_handler_active_iff_matched_element_open: for every selector set, handler scripts, failure point, configuration, document and chunking, '
+                   'in every state reached through successful writes the activation count of each comment/text handler = its initial count + the number of (open element, matched selector) pairs that own it, so a selector-scoped '
+                   'handler is active exactly while a matched element is on the open-element stack. Partial: that the stack is the tree induced by explicit tags (the C04 tie), exactly-once end-tag handlers, registration order and the '
+                   'end handler are decided by comparing the complete handler-invocation sequence of the real rewriter with the extracted reference scope model (text chunks collapsed per node; end-tag handlers of one end tag and '
+                   'end handlers compared as sets) and by the correspondence run.',
+        level_note='Trusted as C04.'),
     #'C01': dict(coq=['props/C01.vo'], families=[('l1', 1500, 40000)], projections=['out_bytes'], oracle=oracle_c01),
     'C12': dict(coq=['props/C12.vo'], families=[('l1', 800, 20000), ('l1fail', 500, 10000), ('l2fail', 500, 10000), ('l2edit', 500, 10000)], projections=['sink_protocol'], oracle=oracle_c12,
         technique='Coq proof: generic frame theorem over the executable model + invariant over call histories; extraction-based correspondence run',
